@@ -119,6 +119,12 @@ func genC09(t *rapid.T) c09Case {
 		}
 		c.Pre = append(c.Pre, vOp{K: "close", W: wid})
 		wid++
+		// a tombstone in the preloaded file, so that a concurrent GC pass has something
+		// to compact while the deleter splits pointers behind it
+		if len(g.pre) >= 3 && len(g.data) > 0 && rapid.Bool().Draw(t, "pretomb") {
+			i := rapid.IntRange(0, len(g.pre)-2).Draw(t, "tombi")
+			c.Pre = append(c.Pre, vOp{K: "delete", A: g.pre[i], B: g.pre[i] + 1, Keys: g.data})
+		}
 	}
 	var allKeys []uint32
 	for _, ch := range c.Schema.Chans {
